@@ -460,6 +460,82 @@ theorem inverseTransform_accuracy (u01 : U01 G) (findRoot : (Rat → Rat) → Ra
   obtain ⟨r, h0, h1⟩ := hroot (fun x => (sampleUniform u01 g 0 1).1 - cdf x) a b (itransTol a b)
   exact ⟨r, by linarith, h1⟩
 
+/-! ## Parameter guards (fix d65f15f): which requests stop with a diagnostic, and that nothing else changed -/
+
+theorem sampleUniformG_error_iff (u01 : U01 G) (g : G) (a b : Rat) :
+    (∃ e, sampleUniformG u01 g a b = .error e) ↔ b < a := by
+  unfold sampleUniformG; split_ifs with h <;> simp [h]
+
+theorem sampleUniformG_ok (u01 : U01 G) (g : G) (a b : Rat) (h : a ≤ b) :
+    sampleUniformG u01 g a b = .ok (sampleUniform u01 g a b) := by
+  unfold sampleUniformG; rw [if_neg (not_lt.mpr h)]
+
+theorem sampleGaussG_error_iff (u01 : U01 G) (gq : Rat → Rat → Rat → Rat) (g : G) (mu sigma : Rat) :
+    (∃ e, sampleGaussG u01 gq g mu sigma = .error e) ↔ sigma < 0 := by
+  unfold sampleGaussG; split_ifs with h <;> simp [h]
+
+theorem sampleGaussG_ok (u01 : U01 G) (gq : Rat → Rat → Rat → Rat) (g : G) (mu sigma : Rat) (h : 0 ≤ sigma) :
+    sampleGaussG u01 gq g mu sigma = .ok (sampleGauss u01 gq g mu sigma) := by
+  unfold sampleGaussG; rw [if_neg (not_lt.mpr h)]
+
+theorem samplePoissonG_error_iff (u01 : U01 G) (exp rnd : Rat → Rat) (step : Rat) (rf fuel : Nat) (g : G) (lam : Rat) :
+    (∃ e, samplePoissonG u01 exp rnd step rf fuel g lam = .error e) ↔ lam < 0 := by
+  unfold samplePoissonG; split_ifs with h <;> simp [h]
+
+theorem samplePoissonG_ok (u01 : U01 G) (exp rnd : Rat → Rat) (step : Rat) (rf fuel : Nat) (g : G) (lam : Rat) (h : 0 ≤ lam) :
+    samplePoissonG u01 exp rnd step rf fuel g lam = .ok (samplePoisson u01 exp rnd step rf fuel g lam) := by
+  unfold samplePoissonG; rw [if_neg (not_lt.mpr h)]
+
+/-- the boundary cases are meaningful exactly as coded: a one-point domain, zero width, zero mean -/
+theorem guards_boundary_meaningful (u01 : U01 G) (gq : Rat → Rat → Rat → Rat) (exp rnd : Rat → Rat) (step : Rat) (rf fuel : Nat) (g : G) (a mu : Rat) :
+    sampleUniformG u01 g a a = .ok (sampleUniform u01 g a a) ∧ (sampleUniform u01 g a a).1 = a ∧
+    sampleGaussG u01 gq g mu 0 = .ok (sampleGauss u01 gq g mu 0) ∧
+    samplePoissonG u01 exp rnd step rf fuel g 0 = .ok (samplePoisson u01 exp rnd step rf fuel g 0) := by
+  refine ⟨sampleUniformG_ok u01 g a a (le_refl _), ?_, sampleGaussG_ok u01 gq g mu 0 (le_refl _), samplePoissonG_ok u01 exp rnd step rf fuel g 0 (le_refl _)⟩
+  simp [sampleUniform]
+
+/-- a guarded Metropolis call that passes its guards IS the unguarded one: sample count, draws and containment carry over -/
+theorem metropolis1G_ok (u01 : U01 G) (gq : Rat → Rat → Rat → Rat) (pdf : Rat → Rat) (sigma : Rat) (sample thin burn : Nat)
+    (dom : Option (Rat × Rat)) (g : G) (r : List Rat × G) (h : metropolis1G u01 gq pdf sigma sample thin burn dom g = .ok r) :
+    r = metropolis1 u01 gq pdf sigma sample thin burn dom g := by
+  unfold metropolis1G at h
+  cases dom with
+  | none => simp only at h; split_ifs at h; exact (Except.ok.inj h).symm
+  | some d => obtain ⟨lo, hi⟩ := d; simp only at h; split_ifs at h; exact (Except.ok.inj h).symm
+
+theorem metropolis1G_error_iff (u01 : U01 G) (gq : Rat → Rat → Rat → Rat) (pdf : Rat → Rat) (sigma : Rat) (sample thin burn : Nat) (g : G) (lo hi : Rat) :
+    (∃ e, metropolis1G u01 gq pdf sigma sample thin burn (some (lo, hi)) g = .error e) ↔ (hi < lo ∨ (sigma < 0 ∧ 0 < burn + thin * sample)) := by
+  unfold metropolis1G; simp only
+  by_cases h1 : hi < lo
+  · rw [if_pos h1]; exact ⟨fun _ => Or.inl h1, fun _ => ⟨_, rfl⟩⟩
+  · rw [if_neg h1]
+    by_cases h2 : sigma < 0 ∧ 0 < burn + thin * sample
+    · rw [if_pos h2]; exact ⟨fun _ => Or.inr h2, fun _ => ⟨_, rfl⟩⟩
+    · rw [if_neg h2]
+      constructor
+      · rintro ⟨e, he⟩; exact absurd he (by simp)
+      · rintro (h | h)
+        · exact absurd h h1
+        · exact absurd h h2
+
+theorem metropolis1G_count (u01 : U01 G) (gq : Rat → Rat → Rat → Rat) (pdf : Rat → Rat) (sigma : Rat) (sample thin burn : Nat)
+    (dom : Option (Rat × Rat)) (g : G) (r : List Rat × G) (ht : 1 ≤ thin)
+    (h : metropolis1G u01 gq pdf sigma sample thin burn dom g = .ok r) : r.1.length = sample := by
+  rw [metropolis1G_ok u01 gq pdf sigma sample thin burn dom g r h]
+  exact metropolis_count_1d u01 gq pdf sigma sample thin burn dom g ht
+
+theorem metropolis2G_ok (u01 : U01 G) (gq : Rat → Rat → Rat → Rat) (pdf : Rat → Rat → Rat) (s1 s2 : Rat) (sample thin burn : Nat)
+    (dom : Option Dom2) (g : G) (r : List (Rat × Rat) × G) (h : metropolis2G u01 gq pdf s1 s2 sample thin burn dom g = .ok r) :
+    r = metropolis2 u01 gq pdf s1 s2 sample thin burn dom g := by
+  unfold metropolis2G at h
+  cases dom with
+  | none => simp only at h; split_ifs at h; exact (Except.ok.inj h).symm
+  | some d => simp only at h; split_ifs at h; exact (Except.ok.inj h).symm
+
+theorem rejectionG_error_iff (u01 : U01 G) (pdf : Rat → Rat) (xMin xMax yMax : Rat) (g : G) :
+    (∃ e, rejectionG u01 pdf xMin xMax yMax g = .error e) ↔ (xMax < xMin ∨ yMax < 0) := by
+  unfold rejectionG; split_ifs with h <;> simp [h]
+
 /-- every sampler is a function `G → Out × G` of the passed generator: equal states give equal
     outputs and equal states afterwards (true by construction of the model; that the C++ has this
     shape is the class-D correspondence check) -/
